@@ -394,7 +394,7 @@ def r3_parse_sites(chk, prog):
             for bb, t in ctx.calls("std::collections::hash::map::HashMap::insert"):
                 if len(t.args) > 2 and any(is_me(o) for o in deep_origins(ctx, t.args[2], 2)):
                     sinks.append(bb)
-            if not chk.require(bool(sinks), "R3", f, "parse@L%s:escapes" % pt.sp["l"],
+            if not chk.require(bool(sinks), "R3", f, "parse@%s:escapes" % _doc_label(ctx, pbb),
                                "unrecognised-idiom: cannot see where the parsed document goes", ctx.site(pbb)):
                 continue
             self_recv = lambda o, me=me: base(o) == me and o.fields == ("signed",)
